@@ -173,9 +173,9 @@ CLAIMED["C08"] = (
     "property - PEM/DER key round trips, sign/verify soundness, agreement with an independent implementation, rejection of modified "
     "messages/signatures, DER signature encoding - is a statement about `cryptography`/OpenSSL and hardness assumptions that no contract here "
     "decides: it is exercised by bounded sweeps only (fresh keys of every type incl. leading-zero coordinates, every encoding x password, "
-    "parameter matrix with independent verification), labelled bounded. Known finding C08-KF1 (DER signature length sniffing).",
+    "parameter matrix with independent verification), labelled bounded. Added: raw public keys - PublicKeyEcc.export(NXP) = fixed-width X || Y and PublicKeyEcc.recreate_from_data (curve picked from the length, halves are the coordinates, explicit curve must match) for P-256/384/521; PublicKeyRsa.export(NXP) = modulus || exponent at minimal widths and recreate_public_numbers (modulus = first key-size bytes, other lengths rejected) for RSA-2048/3072/4096; round-trip lemmas for all coordinates / moduli. Known finding C08-KF1 (DER signature length sniffing).",
     "Trusted: A-enc, A-smt, A-struct (to_bytes/from_bytes as positional notation; slice of a concatenation at a piece boundary is that piece). "
-    "Not under contract: all key classes, PublicKeyRsa/PublicKeyEcc NXP export + recreate_from_data, serialize_signature, verify_signature, "
+    "Assumed: PublicKeyEcc.recreate (cryptography builds the key object from the point), rsa.RSAPublicNumbers as a plain record. Not under contract: PEM/DER paths of all key classes, serialize_signature, verify_signature, "
     "SignatureProvider; A-crypto-fun, A-crypto-sec, A-pki.",
     "DESIGN.md 7 C08")
 CLAIMED["C07"] = (
